@@ -20,14 +20,28 @@ from __future__ import annotations
 import struct
 
 
-def box(typ: bytes, payload: bytes, large: bool = False) -> bytes:
+CUR_RNG = None     # set by synth(): lets every box draw its header form
+
+
+def box(typ: bytes, payload: bytes, large: bool | None = None) -> bytes:
+    """`large` None: the 64-bit largesize form now and then (a redundant spelling of a small size)"""
+    if large is None:
+        large = CUR_RNG is not None and CUR_RNG.random() < .06
     if large:
         return struct.pack(">I4sQ", 1, typ, 16 + len(payload)) + payload
     return struct.pack(">I4s", 8 + len(payload), typ) + payload
 
 
-def full(typ: bytes, version: int, flags: int, payload: bytes, large: bool = False) -> bytes:
+def full(typ: bytes, version: int, flags: int, payload: bytes, large: bool | None = None) -> bytes:
     return box(typ, bytes([version]) + flags.to_bytes(3, "big") + payload, large)
+
+
+def pool(rng, specials, bits: int) -> int:
+    """boundary pool for a field with an escape / explicit / redundant spelling: half of the
+    draws are the values that collide with the table, the default or the short form"""
+    if rng.random() < .5:
+        return rng.choice(list(specials))
+    return bnd(rng, bits)
 
 
 class Bits:
@@ -71,6 +85,7 @@ def text(rng, lo=0, hi=12, wide=True) -> bytes:
     return "".join(rng.choice(alphabet) for _ in range(rng.randrange(lo, hi + 1))).encode("utf-8")
 
 
+SAMPLE_RATES = [96000, 88200, 64000, 48000, 44100, 32000, 24000, 22050, 16000, 12000, 11025, 8000, 7350]
 MATRIX = [0x10000, 0, 0, 0, 0x10000, 0, 0, 0, 0x40000000]
 
 
@@ -241,25 +256,37 @@ def descr(tag: int, payload: bytes, width: int = 0) -> bytes:
 
 
 def esds(rng):
-    # AudioSpecificConfig (ISO/IEC 14496-3 1.6.2.1), GASpecificConfig for AAC-LC / variants
+    # AudioSpecificConfig (ISO/IEC 14496-3 1.6.2.1) + GASpecificConfig (4.4.1): every conditional
+    # field; the escape index 0xF carries an explicit rate that may also be a table rate
     b = Bits()
-    aot = rng.choice([2, 2, 5, 1, 4])
+    aot = rng.choice([2, 2, 5, 1, 4, 6, 20, 17, 19, 22, 23])
     b.put(5, aot)
-    fi = rng.choice([3, 4, 0, 12, 15])
+    fi = rng.choice([3, 4, 0, 12, 15, 15])
     b.put(4, fi)
     if fi == 15:
-        b.put(24, bnd(rng, 24))
-    b.put(4, rng.choice([1, 2, 6, 0]))
+        b.put(24, pool(rng, SAMPLE_RATES + [0, 1, 0xFFFFFF, 47999, 48001], 24))
+    b.put(4, rng.choice([1, 2, 6, 7]))
     b.put(1, rng.randrange(2))                  # frameLengthFlag
     dep = rng.randrange(2)
     b.put(1, dep)
     if dep:
-        b.put(14, bnd(rng, 14))
-    b.put(1, 0)                                 # extensionFlag
+        b.put(14, pool(rng, [0, 1, 0x3FFF], 14))
+    ext = rng.randrange(2)
+    b.put(1, ext)                               # extensionFlag
+    if aot in (6, 20):
+        b.put(3, rng.randrange(8))              # layerNr
+    if ext:
+        if aot == 22:
+            b.put(5, bnd(rng, 5)).put(11, bnd(rng, 11))
+        if aot in (17, 19, 20, 23):
+            b.put(1, rng.randrange(2)).put(1, rng.randrange(2)).put(1, rng.randrange(2))
+        b.put(1, 0)                             # extensionFlag3
     while b.n % 8:
         b.put(1, 0)
-    asc = b.bytes() + (rbytes(rng, rng.choice([0, 0, 3, 130])))
-    width = rng.choice([0, 0, 4, 2])
+    # trailing bytes (sync extension …); sizes around the 1-/2-byte descriptor length boundary
+    extra = rng.choice([0, 0, 3, 130, 127 - b.n // 8, 128 - b.n // 8])
+    asc = b.bytes() + rbytes(rng, max(0, extra))
+    width = rng.choice([0, 0, 4, 2, 1])
     dcd = struct.pack(">BB", 0x40, (rng.choice([5, 4]) << 2) | (rng.randrange(2) << 1) | 1)
     dcd += bnd(rng, 24).to_bytes(3, "big") + struct.pack(">II", bnd(rng, 32), bnd(rng, 32))
     dcd += descr(5, asc, width)
@@ -357,8 +384,13 @@ STANDALONE = [mvhd, tkhd, mdhd, hdlr, btrt, pasp, frma, schm, mime, vttc, avcc, 
 
 def synth(rng):
     """(label, bytes) of one synthesised input: a single box of a class, or a whole moov"""
-    k = rng.random()
-    if k < .2:
-        return "moov", moov(rng)
-    f = rng.choice(STANDALONE)
-    return f.__name__, f(rng)
+    global CUR_RNG
+    CUR_RNG = rng
+    try:
+        k = rng.random()
+        if k < .2:
+            return "moov", moov(rng)
+        f = rng.choice(STANDALONE)
+        return f.__name__, f(rng)
+    finally:
+        CUR_RNG = None
